@@ -356,6 +356,11 @@ class BigTtlTriplesYielder(BaseTriplesYielder):
             return False
 
     def _parse_elem(self, raw_elem):
+        if raw_elem[-1] in ";," and not raw_elem.startswith('"') and raw_elem[0] != "<":
+            # No name ends with ';' or ',': the punctuation was not separated from the token with a blank
+            raise ValueError("Malformed file. Unexpected token (missing blank before the punctuation?): " + raw_elem)
+        if raw_elem.startswith('"') and raw_elem[-1] in ";," and raw_elem.rfind('"') < len(raw_elem) - 1:
+            raise ValueError("Malformed file. Unexpected token (missing blank before the punctuation?): " + raw_elem)
         if raw_elem[0] == "<":
             return self._parse_cornered_element(raw_elem)
         elif raw_elem in _RDF_TYPE_CONTRACTED:
